@@ -3,6 +3,7 @@ package props
 import (
 	"fmt"
 	"go/token"
+	"go/types"
 	"strings"
 
 	"golang.org/x/tools/go/ssa"
@@ -311,113 +312,7 @@ func runC15(c *eng.Ctx) {
 	})
 
 	// ---- 5/6. file selection ---------------------------------------------------------------------------------------------------------------
-	c.Rule("GUARD", "kv/version.version.FindFiles{inclusive}", func() {
-		f := c.Fn("kv/version.version.FindFiles")
-		facts := p.MustFacts(f)
-		var selects []eng.Site
-		for _, s := range c.Some(f, eng.CallTo("builtin:append"), "append(files, file)") {
-			// the appends that build the RESULT (a helper listing a level's files appends too)
-			for _, r := range eng.SuccessReturns(f) {
-				if eng.DependsOn(eng.RetVal(r, 0), func(x ssa.Value) bool { return x == s.Instr.(ssa.Value) }) && s.Instr.Parent() == f {
-					selects = append(selects, s)
-					break
-				}
-			}
-		}
-		if len(selects) == 0 {
-			c.Undecided("no append feeding the result of FindFiles")
-		}
-		for i, s := range selects {
-			fs := facts.At(s.Instr)
-			lo := facts.Find(fs, "le", eng.DescSuffix(".minKey"), eng.DescIs("key"))
-			hi := facts.Find(fs, "le", eng.DescIs("key"), eng.DescSuffix(".maxKey"))
-			lt := facts.Find(fs, "lt", eng.DescSuffix(".minKey"), eng.DescIs("key"))
-			ht := facts.Find(fs, "lt", eng.DescIs("key"), eng.DescSuffix(".maxKey"))
-			// le is satisfied by lt facts too: make sure the guard is not strict by looking at the rejecting edges
-			_ = lt
-			_ = ht
-			c.Check(len(lo) > 0 && len(hi) > 0, fmt.Sprintf("selected-when-within[%d]", i), s.Instr, f, "a file is selected when min <= key <= max", "facts: "+strings.Join(facts.Render(fs), " ; "))
-		}
-		// no strict comparison: the rejecting edges must be key < min and key > max (strict), i.e. the accepting facts are le, not lt
-		strict := eng.EdgesWithFact(f, func(ft eng.Fact) bool {
-			if ft.Op != "lt" || ft.Y == nil {
-				return false
-			}
-			dx, dy := p.Desc(ft.X), p.Desc(ft.Y)
-			return strings.HasSuffix(dx, ".minKey") && dy == "key" || dx == "key" && strings.HasSuffix(dy, ".maxKey")
-		})
-		app := selects
-		bad := false
-		for _, e := range strict {
-			first := e.B.Succs[e.Succ].Instrs[0]
-			if _, ok := eng.PathExists(eng.PathQuery{Fn: f, After: first, Target: func(in ssa.Instruction) bool { return instrIn(in, app) }, Blocked: func(in ssa.Instruction) bool { _, isNext := in.(*ssa.Next); return isNext }}); ok || instrIn(first, app) {
-				// the edge establishing a STRICT bound leads to the append: then equality is excluded
-				// (only a problem if that strict edge is the only way in)
-				bad = bad || false
-			}
-		}
-		// equality must be accepted: what is known at the selection is min <= key <= max, not the strict form
-		strictAt := 0
-		for _, sl := range selects {
-			fs := facts.At(sl.Instr)
-			strictAt += len(facts.Find(fs, "lt", eng.DescSuffix(".minKey"), eng.DescIs("key"))) + len(facts.Find(fs, "lt", eng.DescIs("key"), eng.DescSuffix(".maxKey")))
-		}
-		c.Check(strictAt == 0 && !bad, "bounds-inclusive", nil, f, "both bounds are inclusive (a key equal to a file's min or max key is found)", fmt.Sprintf("%d strict bounds established at the selection", strictAt))
-		rng := false
-		for _, b := range eng.BlocksT(f) {
-			for _, in := range b.Instrs {
-				if ia, ok := in.(*ssa.IndexAddr); ok && eng.DependsOnField(ia.X, "kv/version.version.levels") {
-					rng = true
-				}
-			}
-		}
-		c.Check(rng, "all-levels", nil, f, "every level is searched", "")
-		// the scan visits every file of every level: no break / return out of either loop
-		early := eng.EarlyLoopExits(f)
-		det := ""
-		for _, e := range early {
-			det += fmt.Sprintf("block %d leaves the loop headed by block %d; ", e.From.Index, e.Header.Index)
-		}
-		var at ssa.Instruction
-		if len(early) > 0 {
-			at = early[0].From.Instrs[len(early[0].From.Instrs)-1]
-		}
-		c.Check(len(early) == 0, "no-early-exit-from-the-scan", at, f, "FindFiles looks at every file of every level (ranges of files above level 0 may overlap: the first range match need not hold the key)", det)
-		for _, fk := range []string{"kv/version.version.getOverlappingInputs", snT + ".FindReaders"} {
-			g := c.Fn(fk)
-			ex := eng.EarlyLoopExits(g)
-			// a failing return inside the loop (reader could not be opened) is not a skipped element
-			n := 0
-			for _, e := range ex {
-				rb := e.From
-				if e.To != nil {
-					rb = e.To
-				}
-				if r, ok := rb.Instrs[len(rb.Instrs)-1].(*ssa.Return); ok && !instrIsSuccessReturn(g, r) {
-					continue
-				}
-				n++
-			}
-			c.Check(n == 0, "no-early-exit:"+fk, nil, g, fk+" visits every candidate file", fmt.Sprintf("%d early exits", n))
-		}
-		ld := c.Fn(snT + ".Load")
-		ff := c.One(ld, invokeOn(".version", "FindFiles"), "version.FindFiles(key)")
-		gr := c.Some(ld, invokeOn(".cache", "GetReader"), "cache.GetReader")
-		conds, _ := eng.GuardingConds(ld, gr[0].Instr)
-		okAll := false
-		for _, cd := range conds {
-			if eng.DependsOn(cd, func(x ssa.Value) bool { return x == ff.Instr.(ssa.Value) }) {
-				okAll = true
-			}
-		}
-		c.Check(okAll, "load-visits-every-selected-file", gr[0].Instr, ld, "a snapshot lookup visits every file FindFiles selected (a key living in several files yields all its values)", "")
-		// a missing key in one file does not stop the scan
-		get := c.One(ld, invokeOn("", "Get"), "reader.Get(key)")
-		_ = get
-		c.Check(len(p.Sites(ld, eng.CallTo("errors.Is"))) > 0, "absent-in-one-file-continues", nil, ld, "ErrKeyNotExist from one file continues with the next file", "")
-		visitsEveryElement(c, ld, "load-leaves-the-scan-only-with-an-error",
-			"a snapshot lookup goes on to the next selected file unless it fails: a file that spans the key without holding it does not end the lookup")
-	})
+	c.Rule("GUARD", "kv/version.version.FindFiles{inclusive}", func() { findFilesInclusive(c) })
 
 	c.Rule("GUARD", "pkg/encoding.FixedOffsetDecoder.GetBlock{empty range accepted}", func() { emptyBlockAccepted(c) })
 
@@ -457,7 +352,76 @@ func runC15(c *eng.Ctx) {
 	})
 
 	// ---- 7. merged iterator ------------------------------------------------------------------------------------------------------------------
-	c.Rule("PASS", "kv/table.mergedIterator.HasNext{heap re-established}", func() {
+	// ---- 7b. the merge of a compaction iterates exactly the files its install deletes (rule shared with C03 / C04) -------------------
+	c.Rule("ORDER", cjT+".installCompactionResults{one commit}", func() { installOneCommit(c) })
+
+	// ---- 7c. an open table is shared: looking a key up writes nothing into the reader or its offset decoder ------------------------
+	// (table.Cache hands one reader per file to every query goroutine and to the compaction that iterates the same file)
+	c.Rule("PROV", "kv/table.storeMMapReader{lookups are read-only}", func() {
+		fns := []string{mrT + ".Get", mrT + ".getBlock", "pkg/encoding.FixedOffsetDecoder.Get", "pkg/encoding.FixedOffsetDecoder.GetBlock",
+			"pkg/encoding.FixedOffsetDecoder.Size", "pkg/encoding.FixedOffsetDecoder.ValueWidth"}
+		for _, k := range fns {
+			f := c.Fn(k)
+			if len(f.Params) == 0 {
+				c.Undecided("unresolved anchor: %s has no receiver", k)
+			}
+			recv := ssa.Value(f.Params[0])
+			var bad ssa.Instruction
+			for _, b := range eng.BlocksT(f) {
+				for _, in := range b.Instrs {
+					var addr ssa.Value
+					switch x := in.(type) {
+					case *ssa.Store:
+						addr = x.Addr
+					case *ssa.MapUpdate:
+						addr = x.Map
+					default:
+						continue
+					}
+					// a store through memory reached from the receiver (of this function, or handed down to a helper)
+					root := addr
+					for d := 0; d < 12; d++ {
+						switch x := root.(type) {
+						case *ssa.FieldAddr:
+							root = x.X
+							continue
+						case *ssa.IndexAddr:
+							root = x.X
+							continue
+						case *ssa.Slice:
+							root = x.X
+							continue
+						case *ssa.UnOp:
+							if x.Op == token.MUL {
+								root = x.X
+								continue
+							}
+						}
+						break
+					}
+					if root == recv {
+						bad = in
+					} else if pr, isP := root.(*ssa.Parameter); isP && pr.Parent() != f && len(pr.Parent().Params) > 0 && pr == pr.Parent().Params[0] && types.Identical(pr.Type(), recv.Type()) {
+						bad = in
+					}
+				}
+			}
+			why := ""
+			if bad != nil {
+				why = "a store through the receiver at " + p.InstrPos(bad)
+			}
+			c.Check(bad == nil, "read-only:"+k, bad, f, k+" stores nothing into its receiver: concurrent lookups on one cached reader share it without a lock", why)
+		}
+	})
+
+	c.Rule("PASS", "kv/table.mergedIterator.HasNext{heap re-established}", func() { mergedIteratorHeap(c) })
+}
+
+// mergedIteratorHeap: the merged iterator's priority queue stays a heap ordered by ascending key (shared by C15 and C03: the
+// compaction merge consumes its inputs through it, and the table builder drops a key that arrives out of order).
+func mergedIteratorHeap(c *eng.Ctx) {
+	p := c.P
+	{
 		f := c.Fn("kv/table.mergedIterator.HasNext")
 		fix := eng.Any(eng.CallTo("container/heap.Fix", "container/heap.Push", "container/heap.Init", "kv/table.priorityQueue.update"))
 		keySt := c.Some(f, eng.StoreField("kv/table.item.key"), "item.key = it.Key()")
@@ -505,7 +469,23 @@ func runC15(c *eng.Ctx) {
 			}
 			c.Check(asc || strings.Contains(d, ".key<") && strings.HasSuffix(d, ".key)"), "ordered-by-key", r, less, "the queue is ordered by ascending key", "Less is "+d)
 		}
-	})
+		// a direct call of the queue's own Push / Pop / Swap (the heap.Interface methods, which move elements without sifting) is
+		// followed by a heap operation on every path: removing the head by hand (Swap(0, last); Pop()) leaves the last element at
+		// the root and the queue is no heap any more
+		raw := eng.AnyCallTo("kv/table.priorityQueue.Push", "kv/table.priorityQueue.Pop", "kv/table.priorityQueue.Swap")
+		nRaw := 0
+		for _, g := range p.FuncsWithPrefix("kv/table.mergedIterator.") {
+			gfix := p.Sites(g, fix)
+			for i, s := range p.SitesDirect(g, raw) {
+				nRaw++
+				_, skip := eng.PathExists(eng.PathQuery{Fn: g, After: s.Instr, Target: func(in ssa.Instruction) bool { _, ok := in.(*ssa.Return); return ok },
+					Blocked: func(in ssa.Instruction) bool { return instrIn(in, gfix) }})
+				c.Check(!skip, fmt.Sprintf("raw-queue-move-is-followed-by-a-heap-operation:%s[%d]", p.FuncKey(g), i), s.Instr, g,
+					"an element moved by the queue's own Push / Pop / Swap is sifted into place (heap.Fix / heap.Init / update) before the function returns", "a return is reachable without a heap operation")
+			}
+		}
+		c.Check(true, "raw-queue-moves-scanned", nil, nil, fmt.Sprintf("%d direct Push/Pop/Swap call(s) in mergedIterator", nRaw), "")
+	}
 }
 
 func instrIsSuccessReturn(f *ssa.Function, r ssa.Instruction) bool {
@@ -515,4 +495,114 @@ func instrIsSuccessReturn(f *ssa.Function, r ssa.Instruction) bool {
 		}
 	}
 	return false
+}
+
+func findFilesInclusive(c *eng.Ctx) {
+	p := c.P
+	_ = p
+	f := c.Fn("kv/version.version.FindFiles")
+	facts := p.MustFacts(f)
+	var selects []eng.Site
+	for _, s := range c.Some(f, eng.CallTo("builtin:append"), "append(files, file)") {
+		// the appends that build the RESULT (a helper listing a level's files appends too)
+		for _, r := range eng.SuccessReturns(f) {
+			if eng.DependsOn(eng.RetVal(r, 0), func(x ssa.Value) bool { return x == s.Instr.(ssa.Value) }) && s.Instr.Parent() == f {
+				selects = append(selects, s)
+				break
+			}
+		}
+	}
+	if len(selects) == 0 {
+		c.Undecided("no append feeding the result of FindFiles")
+	}
+	for i, s := range selects {
+		fs := facts.At(s.Instr)
+		lo := facts.Find(fs, "le", eng.DescSuffix(".minKey"), eng.DescIs("key"))
+		hi := facts.Find(fs, "le", eng.DescIs("key"), eng.DescSuffix(".maxKey"))
+		lt := facts.Find(fs, "lt", eng.DescSuffix(".minKey"), eng.DescIs("key"))
+		ht := facts.Find(fs, "lt", eng.DescIs("key"), eng.DescSuffix(".maxKey"))
+		// le is satisfied by lt facts too: make sure the guard is not strict by looking at the rejecting edges
+		_ = lt
+		_ = ht
+		c.Check(len(lo) > 0 && len(hi) > 0, fmt.Sprintf("selected-when-within[%d]", i), s.Instr, f, "a file is selected when min <= key <= max", "facts: "+strings.Join(facts.Render(fs), " ; "))
+	}
+	// no strict comparison: the rejecting edges must be key < min and key > max (strict), i.e. the accepting facts are le, not lt
+	strict := eng.EdgesWithFact(f, func(ft eng.Fact) bool {
+		if ft.Op != "lt" || ft.Y == nil {
+			return false
+		}
+		dx, dy := p.Desc(ft.X), p.Desc(ft.Y)
+		return strings.HasSuffix(dx, ".minKey") && dy == "key" || dx == "key" && strings.HasSuffix(dy, ".maxKey")
+	})
+	app := selects
+	bad := false
+	for _, e := range strict {
+		first := e.B.Succs[e.Succ].Instrs[0]
+		if _, ok := eng.PathExists(eng.PathQuery{Fn: f, After: first, Target: func(in ssa.Instruction) bool { return instrIn(in, app) }, Blocked: func(in ssa.Instruction) bool { _, isNext := in.(*ssa.Next); return isNext }}); ok || instrIn(first, app) {
+			// the edge establishing a STRICT bound leads to the append: then equality is excluded
+			// (only a problem if that strict edge is the only way in)
+			bad = bad || false
+		}
+	}
+	// equality must be accepted: what is known at the selection is min <= key <= max, not the strict form
+	strictAt := 0
+	for _, sl := range selects {
+		fs := facts.At(sl.Instr)
+		strictAt += len(facts.Find(fs, "lt", eng.DescSuffix(".minKey"), eng.DescIs("key"))) + len(facts.Find(fs, "lt", eng.DescIs("key"), eng.DescSuffix(".maxKey")))
+	}
+	c.Check(strictAt == 0 && !bad, "bounds-inclusive", nil, f, "both bounds are inclusive (a key equal to a file's min or max key is found)", fmt.Sprintf("%d strict bounds established at the selection", strictAt))
+	rng := false
+	for _, b := range eng.BlocksT(f) {
+		for _, in := range b.Instrs {
+			if ia, ok := in.(*ssa.IndexAddr); ok && eng.DependsOnField(ia.X, "kv/version.version.levels") {
+				rng = true
+			}
+		}
+	}
+	c.Check(rng, "all-levels", nil, f, "every level is searched", "")
+	// the scan visits every file of every level: no break / return out of either loop
+	early := eng.EarlyLoopExits(f)
+	det := ""
+	for _, e := range early {
+		det += fmt.Sprintf("block %d leaves the loop headed by block %d; ", e.From.Index, e.Header.Index)
+	}
+	var at ssa.Instruction
+	if len(early) > 0 {
+		at = early[0].From.Instrs[len(early[0].From.Instrs)-1]
+	}
+	c.Check(len(early) == 0, "no-early-exit-from-the-scan", at, f, "FindFiles looks at every file of every level (ranges of files above level 0 may overlap: the first range match need not hold the key)", det)
+	for _, fk := range []string{"kv/version.version.getOverlappingInputs", snT + ".FindReaders"} {
+		g := c.Fn(fk)
+		ex := eng.EarlyLoopExits(g)
+		// a failing return inside the loop (reader could not be opened) is not a skipped element
+		n := 0
+		for _, e := range ex {
+			rb := e.From
+			if e.To != nil {
+				rb = e.To
+			}
+			if r, ok := rb.Instrs[len(rb.Instrs)-1].(*ssa.Return); ok && !instrIsSuccessReturn(g, r) {
+				continue
+			}
+			n++
+		}
+		c.Check(n == 0, "no-early-exit:"+fk, nil, g, fk+" visits every candidate file", fmt.Sprintf("%d early exits", n))
+	}
+	ld := c.Fn(snT + ".Load")
+	ff := c.One(ld, invokeOn(".version", "FindFiles"), "version.FindFiles(key)")
+	gr := c.Some(ld, invokeOn(".cache", "GetReader"), "cache.GetReader")
+	conds, _ := eng.GuardingConds(ld, gr[0].Instr)
+	okAll := false
+	for _, cd := range conds {
+		if eng.DependsOn(cd, func(x ssa.Value) bool { return x == ff.Instr.(ssa.Value) }) {
+			okAll = true
+		}
+	}
+	c.Check(okAll, "load-visits-every-selected-file", gr[0].Instr, ld, "a snapshot lookup visits every file FindFiles selected (a key living in several files yields all its values)", "")
+	// a missing key in one file does not stop the scan
+	get := c.One(ld, invokeOn("", "Get"), "reader.Get(key)")
+	_ = get
+	c.Check(len(p.Sites(ld, eng.CallTo("errors.Is"))) > 0, "absent-in-one-file-continues", nil, ld, "ErrKeyNotExist from one file continues with the next file", "")
+	visitsEveryElement(c, ld, "load-leaves-the-scan-only-with-an-error",
+		"a snapshot lookup goes on to the next selected file unless it fails: a file that spans the key without holding it does not end the lookup")
 }
